@@ -555,7 +555,9 @@ class World:
                 props = {"I1": {"C04"}, "I2": {"C08", "C04"}, "I3": {"C11", "C15", "C06"},
                          "I4": {"C19"}, "I5": {"C16"}, "I6": {"C02", "C15"}, "I7": {"C02", "C06", "C05"},
                          "I8": {"C19"}, "I9": {"C05"}}[inv_id]
-                self.violate("inv:" + inv_id, props | (exp.props & props), exp.shape, detail)
+                # an invariant broken by this step concerns the invariant's home properties and the
+                # properties the command is about
+                self.violate("inv:" + inv_id, props | exp.props, exp.shape, detail)
             if not exp.unspec_state:
                 d = invariants.diff(self.model.canon(), invariants.canon(snap))
                 for path, a, b in d[:8]:
